@@ -66,7 +66,7 @@ Definition expected : list (string * string) := [
   ("src/common/quic.rs::quic_frames_thread::unwrap#2", "G is_err()/is_none() are tested first");
   ("src/common/quic.rs::quic_frames_thread::remove#1", "L CHashMap::remove does not panic");
   ("src/common/h11c.rs::h11c_connect::unwrap#1", "I extra(udp-bind-source) is set together with Feature::UdpBind in h11c_handshake, the only place that sets that feature");
-  ("src/common/h11c.rs::h11c_handshake::unwrap#1", "I the listener installs the client stream before calling the handshake");
+  ("src/common/h11c.rs::h11c_handshake_request::unwrap#1", "I the listener installs the client stream before calling the handshake");
   ("src/common/h11c.rs::on_connect::unwrap#1", "I the client stream is still owned by the context at on_connect (copy_bidi takes it later)");
   ("src/common/h11c.rs::on_error::unwrap#1", "G socket.is_none() returns first");
   ("src/common/h11c.rs::on_error::unwrap#2", "G socket.is_none() returns first");
